@@ -616,8 +616,11 @@ func (c *fctx) convert(fr *frame, x *ssa.Convert, reach string, st *state) val {
 			return val{t: s}
 		}
 		if fIsB && fb.Info()&types.IsInteger != 0 {
-			c.used["abstracted:string(rune) (uninterpreted)"] = true
-			return val{t: c.fresh("str", "Str")}
+			// string(r): the UTF-8 encoding of code point r — one byte r for ASCII, at least two bytes >= 0x80 otherwise
+			c.used["abstracted:string(rune) (ASCII exact; other code points: a string of >= 2 bytes starting with a byte >= 0x80)"] = true
+			sv := c.fresh("str", "Str")
+			c.assume(fmt.Sprintf("(ite (and (<= 0 %s) (< %s 128)) (and (= (len %s) 1) (= (at %s 0) %s)) (and (>= (len %s) 2) (>= (at %s 0) 128)))", v.t, v.t, sv, sv, v.t, sv, sv))
+			return val{t: sv}
 		}
 	}
 	if _, ok := to.(*types.Pointer); ok {
